@@ -1,6 +1,8 @@
 //verif:dest internal/io/fs/zz_verif_c03.go
-//verif:replace regexp.Compile = c03Compile
-//verif:replace (*regexp.Regexp).Match = c03Match
+//verif:replace@C03a regexp.Compile = c03Compile
+//verif:replace@C03b regexp.Compile = c03Compile
+//verif:replace@C03a (*regexp.Regexp).Match = c03Match
+//verif:replace@C03b (*regexp.Regexp).Match = c03Match
 
 package fs
 
